@@ -1,14 +1,358 @@
 package cluster
 
-import "github.com/relab/hotstuff"
+import (
+	"fmt"
+	"sort"
+	"strings"
 
-// crafter is the scripted Byzantine participant (filled in by crafter_menu.go).
+	"github.com/relab/hotstuff"
+	"github.com/relab/hotstuff/core"
+	"github.com/relab/hotstuff/security/crypto"
+	"github.com/relab/hotstuff/zverif/fix"
+)
+
+// crafter is the scripted Byzantine participant: it holds the key of replica cfg.Crafter,
+// sees every message ever sent, and offers a menu of crafted messages (simplest first).
 type crafter struct {
 	w      *World
+	id     hotstuff.ID
+	base   crypto.Base // signing primitive of the Byzantine replica (recorded in the ground truth)
 	blocks map[hotstuff.Hash]*hotstuff.Block
+	done   map[string]bool // menu items already used (each is offered once)
+	items  map[string]func()
 }
 
-func newCrafter(w *World) *crafter { return &crafter{w: w, blocks: map[hotstuff.Hash]*hotstuff.Block{}} }
-func (c *crafter) menu() []string   { return nil }
-func (c *crafter) apply(string) bool { return false }
-func (c *crafter) key() string      { return "" }
+func newCrafter(w *World) *crafter {
+	id := w.Cfg.Crafter
+	cfg := core.NewRuntimeConfig(id, fix.Key(crypto.NameEDDSA, id))
+	base, err := crypto.New(cfg, crypto.NameEDDSA)
+	if err != nil {
+		panic(err)
+	}
+	return &crafter{w: w, id: id, base: &fix.Recorder{Base: base, ID: id, Truth: w.Truth}, blocks: map[hotstuff.Hash]*hotstuff.Block{}, done: map[string]bool{}}
+}
+
+func (c *crafter) sign(msg []byte) hotstuff.QuorumSignature {
+	s, err := c.base.Sign(msg)
+	if err != nil {
+		panic(err)
+	}
+	return s
+}
+
+func (c *crafter) q() int { return hotstuff.QuorumSize(c.w.Cfg.N) }
+
+// seenVotes returns the single-signer vote signatures seen on the wire for block b, by signer.
+func (c *crafter) seenVotes(b *hotstuff.Block) map[hotstuff.ID]hotstuff.QuorumSignature {
+	out := map[hotstuff.ID]hotstuff.QuorumSignature{}
+	for i := range c.w.Sent {
+		if v, ok := c.w.Sent[i].Payload.(hotstuff.VoteMsg); ok && v.PartialCert.BlockHash() == b.Hash() && v.PartialCert.Signature() != nil {
+			out[v.PartialCert.Signer()] = v.PartialCert.Signature()
+		}
+	}
+	return out
+}
+
+// realQC assembles a certificate for b from the votes seen plus the adversary's own signature.
+func (c *crafter) realQC(b *hotstuff.Block) (hotstuff.QuorumCert, bool) {
+	if b.Hash() == hotstuff.GetGenesis().Hash() {
+		return hotstuff.NewQuorumCert(nil, 0, b.Hash()), true
+	}
+	votes := c.seenVotes(b)
+	delete(votes, c.id)
+	ids := make([]int, 0, len(votes))
+	for id := range votes {
+		ids = append(ids, int(id))
+	}
+	sort.Ints(ids)
+	sigs := []hotstuff.QuorumSignature{c.sign(b.ToBytes())}
+	for _, id := range ids {
+		if len(sigs) == c.q() {
+			break
+		}
+		sigs = append(sigs, votes[hotstuff.ID(id)])
+	}
+	if len(sigs) < c.q() {
+		return hotstuff.QuorumCert{}, false
+	}
+	s, err := c.base.Combine(sigs...)
+	if err != nil {
+		return hotstuff.QuorumCert{}, false
+	}
+	return hotstuff.NewQuorumCert(s, b.View(), b.Hash()), true
+}
+
+// knownQCs lists certificates that appeared on the wire (in proposals, new-view and timeout messages).
+func (c *crafter) knownQCs() []hotstuff.QuorumCert {
+	seen := map[hotstuff.Hash]hotstuff.QuorumCert{}
+	add := func(qc hotstuff.QuorumCert) {
+		if qc.Signature() != nil || qc.BlockHash() == hotstuff.GetGenesis().Hash() {
+			seen[qc.BlockHash()] = qc
+		}
+	}
+	for i := range c.w.Sent {
+		switch m := c.w.Sent[i].Payload.(type) {
+		case hotstuff.ProposeMsg:
+			add(m.Block.QuorumCert())
+		case hotstuff.NewViewMsg:
+			if qc, ok := m.SyncInfo.QC(); ok {
+				add(qc)
+			}
+		case hotstuff.TimeoutMsg:
+			if qc, ok := m.SyncInfo.QC(); ok {
+				add(qc)
+			}
+		}
+	}
+	var out []hotstuff.QuorumCert
+	for _, qc := range seen {
+		out = append(out, qc)
+	}
+	sort.Slice(out, func(i, j int) bool {
+		if out[i].View() != out[j].View() {
+			return out[i].View() > out[j].View()
+		}
+		return out[i].BlockHash().String() < out[j].BlockHash().String()
+	})
+	return out
+}
+
+func (c *crafter) maxView() hotstuff.View {
+	var v hotstuff.View
+	for _, n := range c.w.Nodes {
+		if n.VS.View() > v {
+			v = n.VS.View()
+		}
+	}
+	return v
+}
+
+func (c *crafter) honestIDs() []hotstuff.ID {
+	var ids []hotstuff.ID
+	seen := map[hotstuff.ID]bool{}
+	for _, n := range c.w.Nodes {
+		if !seen[n.ID] {
+			seen[n.ID] = true
+			ids = append(ids, n.ID)
+		}
+	}
+	return ids
+}
+
+// send posts a crafted message from the Byzantine replica to every node slot of the given ids.
+func (c *crafter) send(to []hotstuff.ID, payload any, view hotstuff.View) {
+	for _, id := range to {
+		for _, slot := range c.w.ByID[id] {
+			c.w.addInflight(Msg{From: -1, To: slot, Payload: payload, View: view})
+		}
+	}
+}
+
+func short(h hotstuff.Hash) string { return fmt.Sprintf("%x", h[:3]) }
+
+// build computes the current menu.
+func (c *crafter) build() {
+	w := c.w
+	c.items = map[string]func(){}
+	add := func(label string, f func()) {
+		label = "B " + label
+		if !c.done[label] {
+			c.items[label] = f
+		}
+	}
+	all := c.honestIDs()
+	leaderOf := func(v hotstuff.View) hotstuff.ID { return w.Nodes[0].Leader.GetLeader(v) }
+	mv := c.maxView()
+	qcs := c.knownQCs()
+	// candidate certificates: the two newest known ones, certificates the adversary can assemble
+	// itself for the newest blocks, and genesis
+	// certificates are only described here; everything that needs the adversary's signature is
+	// produced when the item is applied (building the menu must not touch the ground truth)
+	type cand struct {
+		name string
+		hash hotstuff.Hash
+		view hotstuff.View
+		mk   func() hotstuff.QuorumCert
+	}
+	var cands []cand
+	for i, qc := range qcs {
+		if i < 2 {
+			qc := qc
+			cands = append(cands, cand{fmt.Sprintf("known(%s,v%d)", short(qc.BlockHash()), qc.View()), qc.BlockHash(), qc.View(), func() hotstuff.QuorumCert { return qc }})
+		}
+	}
+	var newest []*hotstuff.Block
+	for _, b := range w.Blocks {
+		if b.View()+2 >= mv && b.View() > 0 {
+			newest = append(newest, b)
+		}
+	}
+	sort.Slice(newest, func(i, j int) bool {
+		if newest[i].View() != newest[j].View() {
+			return newest[i].View() > newest[j].View()
+		}
+		return newest[i].Hash().String() < newest[j].Hash().String()
+	})
+	if len(newest) > 3 {
+		newest = newest[:3]
+	}
+	for _, b := range newest {
+		b := b
+		others := c.seenVotes(b)
+		delete(others, c.id)
+		if len(others) >= c.q()-1 {
+			dup := false
+			for _, cd := range cands {
+				if cd.hash == b.Hash() {
+					dup = true
+				}
+			}
+			if !dup {
+				cands = append(cands, cand{fmt.Sprintf("assembled(%s,v%d)", short(b.Hash()), b.View()), b.Hash(), b.View(), func() hotstuff.QuorumCert { qc, _ := c.realQC(b); return qc }})
+			}
+		}
+	}
+	gen := hotstuff.NewQuorumCert(nil, 0, hotstuff.GetGenesis().Hash())
+	cands = append(cands, cand{"genesis", gen.BlockHash(), 0, func() hotstuff.QuorumCert { return gen }})
+	views := []hotstuff.View{mv, mv + 1}
+	propose := func(label string, view hotstuff.View, parent hotstuff.Hash, mk func() hotstuff.QuorumCert, cmd uint64) {
+		add(label, func() {
+			b := hotstuff.NewBlock(parent, mk(), fix.Batch(fix.Cmd(7, cmd)), view, c.id)
+			c.blocks[b.Hash()] = b
+			w.Blocks[b.Hash()] = b
+			c.send(all, hotstuff.ProposeMsg{ID: c.id, Block: b}, view)
+		})
+	}
+	for _, v := range views {
+		if v > w.Cfg.Horizon {
+			continue
+		}
+		for _, cd := range cands {
+			if qb, ok := w.Blocks[cd.hash]; ok && qb.View() > v {
+				continue // (a certificate of the same view is offered: the block would not be above its certified block)
+			}
+			for cmd := uint64(1); cmd <= 2; cmd++ {
+				propose(fmt.Sprintf("propose v%d qc=%s cmd%d", v, cd.name, cmd), v, cd.hash, cd.mk, cmd)
+			}
+		}
+		if len(cands) > 0 && len(newest) > 0 {
+			// parent different from the certified block
+			cd := cands[0]
+			for _, nb := range newest {
+				if nb.Hash() != cd.hash && nb.View() < v {
+					propose(fmt.Sprintf("propose v%d qc=%s parent=%s(other)", v, cd.name, short(nb.Hash())), v, nb.Hash(), cd.mk, 1)
+					break
+				}
+			}
+			if cd.hash != hotstuff.GetGenesis().Hash() {
+				propose(fmt.Sprintf("propose v%d qc=%s parent=genesis(other)", v, cd.name), v, hotstuff.GetGenesis().Hash(), cd.mk, 1)
+			}
+		}
+		// forged certificates over the newest block
+		if len(newest) > 0 {
+			nb := newest[0]
+			if nb.View() < v {
+				propose(fmt.Sprintf("propose v%d qc=own-signature-repeated(%s)", v, short(nb.Hash())), v, nb.Hash(), func() hotstuff.QuorumCert {
+					return hotstuff.NewQuorumCert(repeatSig(c.sign(nb.ToBytes()), c.id, c.q()), nb.View(), nb.Hash())
+				}, 1)
+				votes := c.seenVotes(nb)
+				delete(votes, c.id)
+				if len(votes) > 0 {
+					propose(fmt.Sprintf("propose v%d qc=sub-quorum(%s)", v, short(nb.Hash())), v, nb.Hash(), func() hotstuff.QuorumCert {
+						ids := make([]int, 0, len(votes))
+						for id := range votes {
+							ids = append(ids, int(id))
+						}
+						sort.Ints(ids)
+						sub, _ := c.base.Combine(c.sign(nb.ToBytes()), votes[hotstuff.ID(ids[0])])
+						return hotstuff.NewQuorumCert(sub, nb.View(), nb.Hash())
+					}, 1)
+				}
+				if len(qcs) > 0 && qcs[0].Signature() != nil {
+					q0 := qcs[0]
+					propose(fmt.Sprintf("propose v%d qc=relabelled-view(%s)", v, short(q0.BlockHash())), v, q0.BlockHash(), func() hotstuff.QuorumCert {
+						return hotstuff.NewQuorumCert(q0.Signature(), v-1, q0.BlockHash())
+					}, 1)
+				}
+			}
+		}
+	}
+	// votes (also for conflicting blocks)
+	for _, nb := range newest {
+		nb := nb
+		add(fmt.Sprintf("vote %s(v%d)", short(nb.Hash()), nb.View()), func() {
+			pc := hotstuff.NewPartialCert(c.sign(nb.ToBytes()), nb.Hash())
+			c.send([]hotstuff.ID{leaderOf(nb.View() + 1)}, hotstuff.VoteMsg{ID: c.id, PartialCert: pc}, nb.View())
+		})
+	}
+	// timeouts and new-view messages
+	bestC := cands[0]
+	si := func() hotstuff.SyncInfo { return hotstuff.NewSyncInfoWith(bestC.mk()) }
+	for _, v := range []hotstuff.View{mv, mv + 1, mv + 50} {
+		v := v
+		if v > w.Cfg.Horizon && v != mv+50 {
+			continue
+		}
+		add(fmt.Sprintf("timeout v%d", v), func() {
+			m := hotstuff.TimeoutMsg{ID: c.id, View: v, SyncInfo: si(), ViewSignature: c.sign(v.ToBytes())}
+			m.MsgSignature = c.sign(m.ToBytes())
+			c.send(all, m, min(v, w.Cfg.Horizon))
+		})
+	}
+	if bestC.hash != hotstuff.GetGenesis().Hash() {
+		add(fmt.Sprintf("newview relabelled-qc(v%d as v%d)", bestC.view, mv+5), func() {
+			best := bestC.mk()
+			s := hotstuff.NewSyncInfoWith(hotstuff.NewQuorumCert(best.Signature(), mv+5, best.BlockHash()))
+			c.send(all, hotstuff.NewViewMsg{ID: c.id, SyncInfo: s, FromNetwork: true}, mv)
+		})
+	}
+	add(fmt.Sprintf("newview forged-tc(v%d)", mv), func() {
+		tc := hotstuff.NewTimeoutCert(repeatSig(c.sign(mv.ToBytes()), c.id, c.q()), mv)
+		s := hotstuff.NewSyncInfoWith(tc)
+		c.send(all, hotstuff.NewViewMsg{ID: c.id, SyncInfo: s, FromNetwork: true}, mv)
+	})
+	add(fmt.Sprintf("newview qc=%s", cands[0].name), func() {
+		c.send(all, hotstuff.NewViewMsg{ID: c.id, SyncInfo: si(), FromNetwork: true}, mv)
+	})
+}
+
+// repeatSig builds a multi-signature holding the same signature k times.
+func repeatSig(sig hotstuff.QuorumSignature, id hotstuff.ID, k int) hotstuff.QuorumSignature {
+	s := make([]*crypto.EDDSASignature, k)
+	for i := range s {
+		s[i] = crypto.RestoreEDDSASignature(sig.ToBytes(), id)
+	}
+	return crypto.NewMulti(s...)
+}
+
+func (c *crafter) menu() []string {
+	c.build()
+	out := make([]string, 0, len(c.items))
+	for l := range c.items {
+		out = append(out, l)
+	}
+	sort.Strings(out)
+	return out
+}
+
+func (c *crafter) apply(label string) bool {
+	c.build()
+	f, ok := c.items[label]
+	if !ok {
+		return false
+	}
+	c.done[label] = true
+	c.w.begin(label, 0, nil)
+	f()
+	c.w.cur.msg = nil // crafting changes no replica
+	return true
+}
+
+func (c *crafter) key() string {
+	var ls []string
+	for l := range c.done {
+		ls = append(ls, l)
+	}
+	sort.Strings(ls)
+	return strings.Join(ls, ";")
+}
